@@ -1036,7 +1036,13 @@ impl WalletSim {
                     Err(e) => return viol(ctx, owns, Violation::new("root_query_succeeds", format!("{} root at {id}: {e}", pool.name()))),
                     Ok(None) => {
                         // checkpoints older than the 100 newest prunable ones await lazy pruning; their tree data may be gone
-                        if self.prefix_scanned(id) && (id >= budget_floor || on_grid(id)) {
+                        // ... and so may the data under a grid boundary that was scanned only after the pool had moved
+                        // its 100 prunable checkpoints past it (the checkpoint is kept, the leaves it needs were pruned
+                        // with the batch's own expired checkpoints; see F4 in DESIGN.md)
+                        if on_grid(id) && id < budget_floor && self.late_boundaries.contains(&id) {
+                            ctx.probe("late_scanned_boundary_root_not_computable");
+                        }
+                        if self.prefix_scanned(id) && (id >= budget_floor || (on_grid(id) && !self.late_boundaries.contains(&id))) {
                             let why = self.last_root_err.clone().unwrap_or_default();
                             return viol(ctx, owns, Violation::new("root_computable_when_scanned", format!("{} root at checkpoint {id} is not computable although every block from the birthday to {id} is scanned ({why})", pool.name())));
                         }
